@@ -162,6 +162,90 @@ def _cs_block(params, lo, hi):
     return _cs_chunk(params[:4], lo + off, hi + off)
 
 
+def wide_cases(full=True):
+    """rolls wider than 1000 with two piece sizes around a third of the width (patterns of three pieces that fill the roll
+    exactly or miss by one or two units), demands over {1,2,3,6}^2"""
+    out = []
+    for W in (1500, 1501, 1503, 2000) if full else (1500, 2000):
+        t = W // 3
+        for a in range(t - 2, t + 3):
+            for b in range(a, t + 3):
+                for d1 in (1, 2, 3, 6):
+                    for d2 in (1, 2, 3, 6):
+                        if full or (d1 <= 3 and d2 <= 3) or d1 == d2:
+                            out.append((W, (a, b), (d1, d2)))
+    return out
+
+
+def _wide_chunk(params, lo, hi):
+    cases = wide_cases(params)
+    r = new_result()
+    for idx in range(lo, hi):
+        W, sizes, demands = cases[idx]
+        run_instance(r, list(sizes), W, list(demands), ("solve_cg",))
+        if max(demands) <= 3:  # every node re-prices over a table of 100 x width cells: small trees only
+            run_instance(r, list(sizes), W, list(demands), ("solve_bp",), base={"max_iter": 10, "max_nodes": 5})
+        if len(r["violations"]) >= 40 or r["counters"]["hangs"] >= 2 or too_many_hangs():
+            r["capped"] = True
+            break
+    return r
+
+
+def _partitions(total, parts, least):
+    if parts == 1:
+        return [(total,)] if total >= least else []
+    out = []
+    for first in range(least, total // parts + 1):
+        out += [(first,) + rest for rest in _partitions(total - first, parts - 1, first)]
+    return out
+
+
+PERFECT_PARTS = [tuple(reversed(p)) for k in (3, 4) for p in _partitions(16, k, 2)]
+
+
+def perfect_cases():
+    """two rolls of width 16 cut into 3-4 pieces each (every piece >= 2): the pieces, each demanded once, can be cut from two
+    rolls by construction; 6-8 piece types with unit demands give highly degenerate master LPs"""
+    return [(PERFECT_PARTS[i], PERFECT_PARTS[j]) for i in range(len(PERFECT_PARTS)) for j in range(i, len(PERFECT_PARTS))]
+
+
+def _perfect_chunk(params, lo, hi):
+    off = params or 0
+    cases = perfect_cases()
+    r = new_result()
+    for idx in range(lo + off, hi + off):
+        a, b = cases[idx]
+        sizes = list(a) + list(b)
+        run_instance(r, sizes, 16, [1] * len(sizes), ("solve_bp",), base={"max_iter": 60, "max_nodes": 20})
+        if len(r["violations"]) >= 40 or r["counters"]["hangs"] >= 2 or too_many_hangs():
+            r["capped"] = True
+            break
+    return r
+
+
+def sweep_cases():
+    """(sizes, demands): two piece sizes in 1..7, demands (1,1), (2,2), (3,1)"""
+    return [((a, b), d) for a in range(1, 8) for b in range(a, 8) for d in ((1, 1), (2, 2), (3, 1))]
+
+
+def _sweep_chunk(params, lo, hi):
+    """the same order solved for every roll width from the largest piece up to 12 and back down, all in one process and in
+    that order (solve_cg, then solve_bp): every answer is judged on its own, so nothing may be carried from one width to
+    the next"""
+    cases = sweep_cases()
+    r = new_result()
+    for idx in range(lo, hi):
+        sizes, demands = cases[idx]
+        widths = list(range(max(sizes), 13))
+        for solver in ("solve_cg", "solve_bp"):
+            for W in widths + widths[::-1]:
+                run_instance(r, list(sizes), W, list(demands), (solver,), base={"max_iter": 60} if solver == "solve_bp" else None)
+        if len(r["violations"]) >= 40 or r["counters"]["hangs"] >= 2 or too_many_hangs():
+            r["capped"] = True
+            break
+    return r
+
+
 def _cs_sparse_chunk(params, lo, hi):
     """three piece sizes in 1..W, demands from {1,3,5}^3: index = size_code * 27 + demand_code (+ offset)"""
     W, off = params[:2]
@@ -300,6 +384,15 @@ def jobs(tier, seed):
             b = seed % 16
             lo, hi = size * b // 16, size * (b + 1) // 16
             js.append(Job(f"cg_W{W}_m3_demands135_block{b}of16", hi - lo, _cs_sparse_chunk, (W, lo), describe="rotating 1/16 block (VERIF_SEED) of: three sizes in 1..W, demands from {1,3,5}^3"))
+    js.append(Job("wide_rolls", len(wide_cases(tier == "thorough")), _wide_chunk, tier == "thorough", chunk=4, describe="roll widths 1500, 2000 (thorough: also 1501, 1503) with two piece sizes within 2 of a third of the width, demands over {1,2,3,6}^2; solve_cg and solve_bp (pricing on rolls wider than 1000 units)"))
+    js.append(Job("width_sweeps_in_one_process", len(sweep_cases()), _sweep_chunk, None, chunk=1, describe="one order (two piece sizes in 1..7) solved for every roll width up to 12 and back, consecutively in one process; each answer judged on its own"))
+    npf = len(perfect_cases())
+    if tier == "thorough":
+        js.append(Job("bp_two_perfect_rolls_W16", npf, _perfect_chunk, 0, chunk=1, describe="solve_bp (max_iter 60, max_nodes 20) on the pieces of two rolls of width 16 cut into 3-4 pieces each, unit demands: optimum 2 by construction, degenerate masters"))
+    else:
+        b = seed % 8
+        lo, hi = npf * b // 8, npf * (b + 1) // 8
+        js.append(Job(f"bp_two_perfect_rolls_W16_block{b}of8", hi - lo, _perfect_chunk, lo, chunk=1, describe="rotating 1/8 block (VERIF_SEED) of: solve_bp on the pieces of two rolls of width 16 cut into 3-4 pieces each, unit demands"))
     cl = _custom_list(tier)
     js.append(Job("custom_columns", len(cl), _custom_chunk, cl, describe="custom mode: covering subsets of the maximal patterns as initial columns, exact enumerating pricing_fn; solve_cg and solve_bp"))
     return js
